@@ -397,8 +397,13 @@ def main(argv=None):
 
     # known findings: confirm each still reproduces on the real code
     known_lines = []
+    hit_ids = set()
+    for b in bounded_stats:
+        hit_ids.update((b.get("known_hits") or {}).keys())
     for e in findings.for_property(prop):
-        still = confirm_known(e, contracts, bounded)
+        # a listed finding is reported while it still reproduces: its witness fails natively, or inputs of its
+        # region were met (and failed) in this run's bounded tier
+        still = (e.get("id") in hit_ids) or (e.get("witness") is not None and confirm_known(e, contracts, bounded))
         if still:
             known_lines.append("KNOWN-FINDING: property=%s %s: %s" % (prop, e.get("id", ""), e.get("what", "")))
         else:
